@@ -28,6 +28,10 @@ type Case struct {
 	// Reject: "must" (subset violation if accepted is NOT implied), "may" (C02: reject-or-equivalent), "" (must be accepted)
 	Reject string
 	Tags   []string
+	// source location of the case inside its package (for attributing goose's errors)
+	File             string
+	FromLine, ToLine int
+	Src              string
 }
 
 // Package is a generated Go package.
